@@ -26,19 +26,35 @@ class SubE(PlainE):                           # subclass with its own state
 class OSErrE(OSError):
     def __str__(self): return 's%d' % self.lab if hasattr(self, 'lab') else 'new'
 
-CLASSES = [PlainE, MandE, BaseE, BaseMandE, SubE, OSErrE]
+# classes whose INSTANCES are false in a boolean context: truthiness must play no role in the helpers
+class FalsyE(Exception):                      # aggregate-error style: __len__ -> 0
+    def __len__(self): return 0
+    def __str__(self): return 's%d' % self.lab if hasattr(self, 'lab') else 'new'
+class FalsyMandE(Exception):
+    def __init__(self, a, b): super().__init__(a, b)
+    def __bool__(self): return False
+    def __str__(self): return 's%d' % self.lab if hasattr(self, 'lab') else 'new'
+class FalsyBaseE(BaseException):
+    def __len__(self): return 0
+    def __str__(self): return 's%d' % self.lab if hasattr(self, 'lab') else 'new'
+class FalsyBaseMandE(BaseException):
+    def __init__(self, a): super().__init__(a)
+    def __bool__(self): return False
+    def __str__(self): return 's%d' % self.lab if hasattr(self, 'lab') else 'new'
+
+CLASSES = [PlainE, MandE, BaseE, BaseMandE, SubE, OSErrE, FalsyE, FalsyMandE, FalsyBaseE, FalsyBaseMandE]
 # (ctor0, is_exception) per class: what the model is told about a class
-CLASS_INFO = [(1, 1), (0, 1), (1, 0), (0, 0), (1, 1), (1, 1)]
-CLASS_ARGS = [(), (1, 2), (), (7,), (), ()]
+CLASS_INFO = [(1, 1, 1), (0, 1, 1), (1, 0, 1), (0, 0, 1), (1, 1, 1), (1, 1, 1), (1, 1, 0), (0, 1, 0), (1, 0, 0), (0, 0, 0)]
+CLASS_ARGS = [(), (1, 2), (), (7,), (), (), (), (1, 2), (), (7,)]
 
 # predicate tables: verdict per class index: 0 falsy, 1 truthy, 2 raises (class PlainE, label = 1000+l of the filter)
 PREDS = [
-    [0, 0, 0, 0, 0, 0],
-    [1, 1, 1, 1, 1, 1],
-    [1, 0, 0, 1, 0, 1],
-    [0, 1, 1, 0, 1, 0],
-    [2, 2, 2, 2, 2, 2],
-    [1, 0, 2, 0, 1, 2],
+    [0, 0, 0, 0, 0, 0, 0, 0, 0, 0],
+    [1, 1, 1, 1, 1, 1, 1, 1, 1, 1],
+    [1, 0, 0, 1, 0, 1, 1, 0, 1, 0],
+    [0, 1, 1, 0, 1, 0, 0, 1, 0, 1],
+    [2, 2, 2, 2, 2, 2, 2, 2, 2, 2],
+    [1, 0, 2, 0, 1, 2, 0, 1, 2, 1],
 ]
 PRED_NONE = [0, 1, 0, 1, 2, 0]    # verdict when the predicate is handed None / a non-table object
 TRUTHY = [True, 1, 'x', [0], (None,), 2.5]
@@ -134,6 +150,7 @@ def compile_case(c):
                 C.emit(2, 'ctx = SARE(reraise=%s, logger=LG(2))' % bool(c['r0']))
                 C.emit(2, 'TOP(ctx)')
                 C.emit(2, 'ctx.capture()', 2)
+                C.emit(2, 'CAPT()')
                 comp_body(C, c['body'], 2, 'ctx', 0); C.emit(2, 'DONE()')
                 C.emit(2, 'ctx.force_reraise()', 3)
             elif mode == 'post':
@@ -148,7 +165,8 @@ def compile_case(c):
                 C.emit(4, 'except BaseException as _e:'); C.emit(5, 'BODYEXC(_e)'); C.emit(5, 'raise')
                 C.emit(2, 'except BaseException as _w:'); C.emit(3, 'WITHEXC(_w)')
                 C.emit(2, 'WITHDONE()')
-                if c['post'] == 2: C.emit(2, 'ctx.capture()', 4)
+                if c['post'] == 2:
+                    C.emit(2, 'ctx.capture()', 4); C.emit(2, 'CAPT()')
                 C.emit(2, 'ctx.force_reraise()', 3)
             else: raise ValueError(mode)
     elif op == 'filter':
@@ -204,7 +222,7 @@ class Run:
         self.completed = False; self.body_exc = None; self.top = None
         self.removed = []; self.fname = '<C09prog>'
         self.cause_info = None; self.orig = None; self.path = None; self.path_exists = None
-        self.logs_at_top = 0; self.with_exc = None; self.with_finished = False; self.with_tb_ok = None; self.with_logs = 0
+        self.captured = False; self.logs_at_top = 0; self.with_exc = None; self.with_finished = False; self.with_tb_ok = None; self.with_logs = 0
         self.entry_exc = None; self.entry_tb = None; self.args_seen = []; self.given = None
 
     # helpers visible to the program
@@ -234,12 +252,34 @@ class Run:
         if e is not None: e.__traceback__ = None
     def filt(self, p, l, use=0, p2=0):
         pred = self.predicate(p, l)
-        if use == 0: return self.ex.exception_filter(pred)
+        EF = self.ex.exception_filter
+        run = self
+        if use == 0: return EF(pred)
         if use == 1:
-            @self.ex.exception_filter
+            @EF
             def decorated(ex): return pred(ex)
             return decorated
-        run = self
+        if use == 4: return EF(EF(pred))                 # function filter of a function filter
+        if use == 5:                                     # stacked decorators
+            @EF
+            @EF
+            def decorated(ex): return pred(ex)
+            return decorated
+        if use == 6:                                     # bound method of a doubly decorated method
+            class Holder2:
+                def __init__(self_, p): self_.p = p
+                @EF
+                @EF
+                def meth(self_, ex): return run.predicate(self_.p, l)(ex)
+            return Holder2(p).meth
+        if use in (7, 8):
+            class Obj:                                   # a callable WITHOUT __name__ / __qualname__ ...
+                def __call__(self_, ex):
+                    run.pred_seen.append((l, ex))
+                    v = PREDS[p][CLASSES.index(type(ex))] if type(ex) in CLASSES else PRED_NONE[p]
+                    if v == 2: raise run.mk(0, 1000 + l)
+                    return (TRUTHY if v else FALSY)[(l + p) % 6]
+            return EF(EF(Obj())) if use == 7 else EF(Obj())
         class Holder:
             # the predicate depends on the INSTANCE's state
             def __init__(self_, p): self_.p = p
@@ -265,7 +305,7 @@ class Run:
     def _arg(self, a, l, sc=None):
         cur = sys.exc_info()[1]
         if a == 4:    # a stored exception: raised and caught elsewhere, so it already carries a traceback
-            return self.pre(self.mk((l % 6) if sc is None else sc, 2000 + l))
+            return self.pre(self.mk((l % len(CLASSES)) if sc is None else sc, 2000 + l))
         if a == 0: return cur
         if a == 1: return self.mk(0, 2000 + l)
         if a == 2: return None
@@ -343,7 +383,7 @@ class Run:
             return excutils_frame(self.ex, lineno)
         if base == 'C09_prog.py':
             return {'raise_orig': 'orig', 'pre': 'pre', 'pred': 'pred', 'decorated': 'deco', 'meth': 'meth',
-                    'remover': 'remover'}.get(name, 'h:' + name)
+                    'remover': 'remover', '__call__': 'pred'}.get(name, 'h:' + name)
         if base == 'fileutils.py': return 'rpoe' if name == 'remove_path_on_error' else 'fu:' + name
         if base == 'contextlib.py': return 'clexit' if name == '__exit__' else 'cl:' + name
         return '?:%s:%s' % (base, name)
@@ -373,7 +413,7 @@ class Run:
              'DONE': lambda: setattr(run, 'completed', True),
              'BODYEXC': lambda e: setattr(run, 'body_exc', e),
              'WITHEXC': lambda e: setattr(run, 'with_exc', e),
-             'WITHDONE': self.with_done}
+             'WITHDONE': self.with_done, 'CAPT': lambda: setattr(run, 'captured', True)}
         exec(compile(self.src, self.fname, 'exec'), g)
         out = None
         import logging
@@ -474,7 +514,7 @@ def facts(run):
          'body_exc_is_exception': isinstance(run.body_exc, Exception),
          'pred2': [x is run.body_exc and x is not None for l, x in run.pred_seen if l == 2],
          'pred2_n': sum(1 for l, x in run.pred_seen if l == 2),
-         'rm': run.nremoved()}
+         'captured': run.captured, 'rm': run.nremoved()}
     if run.case.get('mode') == 'post':
         w = run.with_exc
         f.update({'with_finished': run.with_finished, 'w_none': w is None, 'w_is_entry': w is not None and w is run.entry_exc,
